@@ -108,6 +108,13 @@ Proof.
   rewrite Hx, (IH Hr Ht). reflexivity.
 Qed.
 
+Lemma name_for_ok : forall s old gen name gen', name_for s old gen = (name, gen') ->
+  (if str_eqb s sym_index then str_eqb K_INDEXER name else if str_eqb s sym_map then str_eqb K_MAP name else true) = true.
+Proof.
+  intros s old gen name gen'. unfold name_for. destruct (str_eqb s sym_index); [intros [= <- _]; reflexivity|].
+  destruct (str_eqb s sym_map); [intros [= <- _]; reflexivity|reflexivity].
+Qed.
+
 Definition nv_ok (nv : option str) : bool := match nv with Some s => negb (Nat.eqb (length s) O) | None => true end.
 
 Lemma build_loop_ok : forall ops prec gen rs nv Bt,
@@ -119,20 +126,21 @@ Proof.
   - cbn [ops_symbols_nonempty forallb] in NE. apply andb_prop in NE. destruct NE as [NEe NEr].
     destruct e as [|s k al]; [exact (IH _ _ _ _ _ NEr RS NV H)|].
     assert (ROW : forall up bp name,
-              (if str_eqb s sym_index then str_eqb name K_INDEXER else if str_eqb s sym_map then str_eqb name K_MAP else true) = true ->
+              (if str_eqb s sym_index then str_eqb K_INDEXER name else if str_eqb s sym_map then str_eqb K_MAP name else true) = true ->
               row_ok {| b_sym := s; b_up := up; b_bp := bp; b_name := name; b_alias := al |} = true).
     { intros up bp name Hn. unfold row_ok. cbn [b_sym b_name]. rewrite NEe, Hn. reflexivity. }
-    cbn [build_loop] in H.
-    destruct k;
-      repeat match type of H with
-             | (if ?c then _ else _) = _ => destruct c eqn:?; try discriminate
-             | match ?c with Some _ => _ | None => _ end = _ => destruct c eqn:?; try discriminate
-             end;
-      try (destruct (str_eqb s sym_index) eqn:E1;
-           [|destruct (str_eqb s sym_map) eqn:E2; [|destruct (b_name _) eqn:E3]];
-           (eapply IH; [exact NEr| |exact NV|exact H]); apply forallb_set_row; try exact RS; apply ROW; rewrite ?E1, ?E2; reflexivity).
-    (* KNameValue *)
-    eapply IH; [exact NEr|exact RS| |exact H]. cbn. exact NEe.
+    assert (STEP : forall k', match new_levels k' prec (old_row s rs) with
+                              | None => None
+                              | Some (up', bp') =>
+                                let '(name, gen') := name_for s (old_row s rs) gen in
+                                build_loop ops prec gen' (set_row {| b_sym := s; b_up := up'; b_bp := bp'; b_name := name; b_alias := al |} rs) nv
+                              end = Some Bt -> table_okb Bt = true).
+    { intros k' H'. destruct (new_levels k' prec (old_row s rs)) as [[up' bp']|]; [|discriminate].
+      destruct (name_for s (old_row s rs) gen) as [name gen'] eqn:EN.
+      eapply IH; [exact NEr| |exact NV|exact H']. apply forallb_set_row; [|exact RS]. apply ROW.
+      exact (name_for_ok _ _ _ _ _ EN). }
+    destruct k; cbn [build_loop] in H; try exact (STEP _ H).
+    destruct nv as [x|]; [discriminate|]. eapply IH; [exact NEr|exact RS| |exact H]. cbn. exact NEe.
 Qed.
 
 Theorem build_table_ok : forall ops Bt, ops_symbols_nonempty ops = true -> build_table ops = Some Bt -> table_okb Bt = true.
